@@ -213,51 +213,51 @@ static void run_alm(Json &j) {
         .v("Sigma_out", Σ).v("y_out", y).b("overrun", S.overrun).i("n_f", n_f).i("n_g", n_g).i("stops", S.stops);
 }
 
-// ---- shipped accumulators: every counter must be the sum, every "final_*"/"last" field the last value
-template <class Stats, class F>
-static void acc2(Json &j, F &&fill) {
+// ---- shipped accumulators: two stats a, b are added; for every probed field the accumulated value is reported together
+// with what Sum (a+b) and Last (b) would give; the check compares with the kind the translator read off operator+= (G5).
+template <class Stats>
+static void acc2(Json &j, long i1, long i2, long e1, long e2, real_t g1, real_t g2) {
     alpaqa::InnerStatsAccumulator<Stats> acc{};
     Stats a{}, b{};
-    fill(a, 1);
-    fill(b, 2);
+    auto fill = [&](Stats &s, long it, long el, real_t g) {
+        s.iterations             = static_cast<unsigned>(it);
+        s.stepsize_backtracks    = static_cast<unsigned>(it % 1000 + 3);
+        s.elapsed_time           = ns{el};
+        s.time_progress_callback = ns{el / 7 + 1};
+        s.final_γ                = g;
+        s.final_ψ                = g * 3;
+        s.final_h                = g * 5;
+    };
+    fill(a, i1, e1, g1);
+    fill(b, i2, e2, g2);
     acc += a;
     acc += b;
-    j.i("iterations", acc.iterations).i("exp_iterations", a.iterations + b.iterations)
-        .i("elapsed", acc.elapsed_time.count()).i("exp_elapsed", (a.elapsed_time + b.elapsed_time).count())
-        .d("final_gamma", acc.final_γ).d("exp_final_gamma", b.final_γ)
-        .d("final_psi", acc.final_ψ).d("exp_final_psi", b.final_ψ)
-        .d("final_h", acc.final_h).d("exp_final_h", b.final_h);
+    auto I = [&](const char *k, long long v, long long x, long long y) {
+        j.raw(k, "{\"acc\":" + std::to_string(v) + ",\"sum\":" + std::to_string(x + y) + ",\"last\":" + std::to_string(y) + "}");
+    };
+    auto D = [&](const char *k, real_t v, real_t x, real_t y) {
+        j.raw(k, "{\"acc\":" + vio::hex(v) + ",\"sum\":" + vio::hex(x + y) + ",\"last\":" + vio::hex(y) + "}");
+    };
+    I("iterations", acc.iterations, a.iterations, b.iterations);
+    I("stepsize_backtracks", acc.stepsize_backtracks, a.stepsize_backtracks, b.stepsize_backtracks);
+    I("elapsed_time", acc.elapsed_time.count(), a.elapsed_time.count(), b.elapsed_time.count());
+    I("time_progress_callback", acc.time_progress_callback.count(), a.time_progress_callback.count(), b.time_progress_callback.count());
+    D("final_γ", acc.final_γ, a.final_γ, b.final_γ);
+    D("final_ψ", acc.final_ψ, a.final_ψ, b.final_ψ);
+    D("final_h", acc.final_h, a.final_h, b.final_h);
 }
 
 static void run_acc(Json &j) {
     std::string which = vio::tok();
     long i1 = vio::ri(), i2 = vio::ri(), e1 = vio::ri(), e2 = vio::ri();
     real_t g1 = vio::rd(), g2 = vio::rd();
-    auto fill = [&](auto &s, int k) {
-        s.iterations   = static_cast<unsigned>(k == 1 ? i1 : i2);
-        s.elapsed_time = ns{k == 1 ? e1 : e2};
-        s.final_γ      = k == 1 ? g1 : g2;
-        s.final_ψ      = (k == 1 ? g1 : g2) * 3;
-        s.final_h      = (k == 1 ? g1 : g2) * 5;
-    };
     j.s("which", which);
-    if (which == "panoc") acc2<alpaqa::PANOCStats<config_t>>(j, fill);
-    else if (which == "zerofpr") acc2<alpaqa::ZeroFPRStats<config_t>>(j, fill);
-    else if (which == "pantr") acc2<alpaqa::PANTRStats<config_t>>(j, fill);
-    else if (which == "fista") acc2<alpaqa::FISTAStats<config_t>>(j, fill);
-    else if (which == "panococp") {
-        alpaqa::InnerStatsAccumulator<alpaqa::PANOCOCPStats<config_t>> acc{};
-        alpaqa::PANOCOCPStats<config_t> a{}, b{};
-        a.iterations = static_cast<unsigned>(i1); b.iterations = static_cast<unsigned>(i2);
-        a.elapsed_time = ns{e1}; b.elapsed_time = ns{e2};
-        a.final_γ = g1; b.final_γ = g2; a.final_ψ = g1 * 3; b.final_ψ = g2 * 3; a.final_h = g1 * 5; b.final_h = g2 * 5;
-        acc += a; acc += b;
-        j.i("iterations", acc.iterations).i("exp_iterations", a.iterations + b.iterations)
-            .i("elapsed", acc.elapsed_time.count()).i("exp_elapsed", (a.elapsed_time + b.elapsed_time).count())
-            .d("final_gamma", acc.final_γ).d("exp_final_gamma", b.final_γ)
-            .d("final_psi", acc.final_ψ).d("exp_final_psi", b.final_ψ)
-            .d("final_h", acc.final_h).d("exp_final_h", b.final_h);
-    } else throw std::runtime_error("unknown accumulator " + which);
+    if (which == "panoc") acc2<alpaqa::PANOCStats<config_t>>(j, i1, i2, e1, e2, g1, g2);
+    else if (which == "zerofpr") acc2<alpaqa::ZeroFPRStats<config_t>>(j, i1, i2, e1, e2, g1, g2);
+    else if (which == "pantr") acc2<alpaqa::PANTRStats<config_t>>(j, i1, i2, e1, e2, g1, g2);
+    else if (which == "fista") acc2<alpaqa::FISTAStats<config_t>>(j, i1, i2, e1, e2, g1, g2);
+    else if (which == "panococp") acc2<alpaqa::PANOCOCPStats<config_t>>(j, i1, i2, e1, e2, g1, g2);
+    else throw std::runtime_error("unknown accumulator " + which);
 }
 
 int main() {
